@@ -1,6 +1,7 @@
 package checks
 
 import (
+	"sort"
 	"fmt"
 	"math/rand"
 	"strings"
@@ -23,6 +24,8 @@ type simpleGw struct {
 	nextMsg uint16
 	NoConnack bool
 	HoldPubrel bool // do not answer PUBREC with PUBREL (the script sends it later)
+	RefuseSubs int  // the next RefuseSubs SUBSCRIBEs are refused (return code 3)
+	held       []uint16 // message IDs whose PUBREL is being held
 }
 
 func newSimpleGw() *simpleGw { return &simpleGw{ids: map[string]uint16{}, nextID: 100, nextMsg: 20000} }
@@ -72,6 +75,16 @@ func (sg *simpleGw) handler() func(g *world.GwPeer, p *snref.Pkt, raw []byte) {
 			} else if p.TIT == 1 {
 				tid = p.TopicID
 			}
+			sg.mu.Lock()
+			refuse := sg.RefuseSubs > 0
+			if refuse {
+				sg.RefuseSubs--
+			}
+			sg.mu.Unlock()
+			if refuse {
+				g.Send(snref.Suback(0, p.MsgID, 3, 0))
+				break
+			}
 			g.Send(snref.Suback(tid, p.MsgID, 0, p.QoS))
 		case snref.UNSUBSCRIBE:
 			g.Send(snref.MsgOnly(snref.UNSUBACK, p.MsgID))
@@ -87,6 +100,10 @@ func (sg *simpleGw) handler() func(g *world.GwPeer, p *snref.Pkt, raw []byte) {
 		case snref.PUBREC:
 			if !sg.HoldPubrel {
 				g.Send(snref.MsgOnly(snref.PUBREL, p.MsgID))
+			} else {
+				sg.mu.Lock()
+				sg.held = append(sg.held, p.MsgID)
+				sg.mu.Unlock()
 			}
 		case snref.PINGREQ:
 			g.Send(snref.Pingresp())
@@ -188,8 +205,15 @@ func TestC27(t *testing.T) {
 	nPairs := r.N(1200, len(pairs))
 	sets = append(sets, pairs[:nPairs]...)
 	nHist := r.N(300, 3000)
-	total := len(sets) + nHist
+	// third front: the subscriptions change while a QoS 2 message is between PUBLISH and PUBREL, and
+	// re-subscriptions which the gateway refuses
+	chg := c27changeCases()
+	total := len(sets) + nHist + len(chg)
 	r.Each(t, total, 0, nil, func(t *testing.T, c *rt.Case) {
+		if c.I >= len(sets)+nHist {
+			c27change(t, r, c, chg[c.I-len(sets)-nHist])
+			return
+		}
 		rng := c.Rand()
 		var fs []string
 		history := false
@@ -334,7 +358,7 @@ func TestC27(t *testing.T) {
 			r.Sample(map[string]interface{}{"filters": fs, "deliveries": checked, "example_topics": names[:8]})
 		}
 	})
-	r.Finish(fmt.Sprintf("real client library against a scripted gateway in virtual time. Filter alphabet: %d filters = all level sequences of depth 1-3 over {a,b,empty,+}, each of depth <= 2 also with a trailing '#', and '#'; topic names: %d names = all level sequences of depth 1-3 over {a,b,empty} (incl. leading/trailing '/', '//'). Cases: every single-filter subscription (exhaustive), %d of the %d two-filter sets (thorough: all), and random subscribe/unsubscribe histories; in each case every name is delivered (QoS 0/1/2 at random; REGISTER first, short encoding for 2-byte names) before and after an Unsubscribe. Oracle: independent MQTT 4.7 matcher; no callback when no current filter matches, otherwise exactly one callback whose filter is current and matches. Evaluations = deliveries checked; distinct = filter sets.", len(filters), len(names), nPairs, len(pairs))+fmt.Sprintf(" (%d singles)", nSingles), nil)
+	r.Finish(fmt.Sprintf("real client library against a scripted gateway in virtual time. Filter alphabet: %d filters = all level sequences of depth 1-3 over {a,b,empty,+}, each of depth <= 2 also with a trailing '#', and '#'; topic names: %d names = all level sequences of depth 1-3 over {a,b,empty} (incl. leading/trailing '/', '//'). Cases: every single-filter subscription (exhaustive), %d of the %d two-filter sets (thorough: all), and random subscribe/unsubscribe histories; in each case every name is delivered (QoS 0/1/2 at random; REGISTER first, short encoding for 2-byte names) before and after an Unsubscribe. Oracle: independent MQTT 4.7 matcher; no callback when no current filter matches, otherwise exactly one callback whose filter is current and matches. Third front: with callback A subscribed, a message (QoS 0/1/2; for QoS 2 the PUBREL is held back after the PUBLISH) is delivered after {nothing, Unsubscribe, re-Subscribe with callback B, a re-Subscribe with B which the gateway refuses, Subscribe of another matching filter}: the callback that runs is the one of a subscription current at delivery (none after Unsubscribe, B after the accepted re-Subscribe, A after the refused one). Evaluations = deliveries checked; distinct = filter sets.", len(filters), len(names), nPairs, len(pairs))+fmt.Sprintf(" (%d singles)", nSingles), nil)
 }
 
 func keys(m map[string]bool) []string {
@@ -358,4 +382,155 @@ func shape(s string) string {
 		}
 	}
 	return strings.Join(parts, "/")
+}
+
+// c27changeCase: filter f (callback A) is subscribed; a message on `topic` arrives with `qos`; for QoS 2 the
+// PUBREL is held back while `change` happens; then the PUBREL (QoS 2) resp. a second message (QoS 0/1) follows.
+type c27changeCase struct {
+	f, topic string
+	qos      uint8
+	change   string // "unsubscribe", "resubscribe-B", "resubscribe-B-refused", "subscribe-other-matching", "none"
+}
+
+func (k c27changeCase) String() string {
+	return fmt.Sprintf("filter %q (callback A), message on %q QoS %d, change before it is delivered: %s", k.f, k.topic, k.qos, k.change)
+}
+
+func c27changeCases() []c27changeCase {
+	var out []c27changeCase
+	for _, ft := range [][2]string{{"a/b", "a/b"}, {"a/+", "a/b"}, {"#", "a/b"}, {"ab", "ab"}, {"a/#", "a"}} {
+		for _, qos := range []uint8{0, 1, 2} {
+			for _, ch := range []string{"none", "unsubscribe", "resubscribe-B", "resubscribe-B-refused", "subscribe-other-matching"} {
+				out = append(out, c27changeCase{ft[0], ft[1], qos, ch})
+			}
+		}
+	}
+	return out
+}
+
+func c27change(t *testing.T, r *rt.Run, c *rt.Case, k c27changeCase) {
+	c.Desc = "subscription change around a delivery: " + k.String()
+	var evs []world.Ev
+	failed := ""
+	bubble(t, func() {
+		tr := world.NewTrace()
+		sg := newSimpleGw()
+		sg.HoldPubrel = true
+		g := world.NewGwPeer(tr, 0, sg.handler())
+		cl := newClientOn(g.Link.A, stdClientCfg("cl"))
+		if err := cl.Dial("mem"); err != nil {
+			failed = "dial: " + err.Error()
+			return
+		}
+		if err := cl.Connect(); err != nil {
+			failed = "connect: " + err.Error()
+			return
+		}
+		if err := cl.Subscribe(k.f, 2, cbRecorder(tr, 0, "A")); err != nil {
+			failed = "subscribe: " + err.Error()
+			return
+		}
+		if k.qos == 2 {
+			// PUBLISH arrives (the client answers PUBREC), the PUBREL is held back
+			sg.deliver(g, k.topic, 2, []byte("msg"))
+			synctest.Wait()
+		}
+		var err error
+		switch k.change {
+		case "unsubscribe":
+			err = cl.Unsubscribe(k.f)
+		case "resubscribe-B":
+			err = cl.Subscribe(k.f, 1, cbRecorder(tr, 0, "B"))
+		case "resubscribe-B-refused":
+			sg.mu.Lock()
+			sg.RefuseSubs = 1
+			sg.mu.Unlock()
+			if e := cl.Subscribe(k.f, 1, cbRecorder(tr, 0, "B")); e == nil {
+				failed = "the refused Subscribe returned nil"
+			}
+		case "subscribe-other-matching":
+			err = cl.Subscribe("#", 1, cbRecorder(tr, 0, "other"))
+			if k.f == "#" {
+				err = cl.Subscribe("+/+", 1, cbRecorder(tr, 0, "other"))
+			}
+		}
+		if err != nil {
+			failed = k.change + ": " + err.Error()
+			return
+		}
+		synctest.Wait()
+		tr.Add(0, world.Note, nil, "delivery")
+		if k.qos == 2 {
+			sg.mu.Lock()
+			held := append([]uint16(nil), sg.held...)
+			sg.mu.Unlock()
+			for _, mid := range held {
+				g.Send(snref.MsgOnly(snref.PUBREL, mid))
+			}
+		} else {
+			sg.deliver(g, k.topic, k.qos, []byte("msg"))
+		}
+		time.Sleep(time.Second)
+		synctest.Wait()
+		cl.Close()
+		time.Sleep(2 * time.Second)
+		g.Close()
+		synctest.Wait()
+		evs = tr.Events()
+	})
+	if failed != "" {
+		c.Inconclusive("setup failed: " + failed + " (judged by C26/C28)")
+		return
+	}
+	var ran []string
+	after := false
+	for _, e := range evs {
+		if e.Kind == world.Note && e.Note == "delivery" {
+			after = true
+		}
+		if e.Kind == world.CB {
+			var f string
+			fmt.Sscanf(e.Note, "filter=%q", &f)
+			if !after {
+				f += "(before PUBREL)"
+			}
+			ran = append(ran, f)
+		}
+	}
+	// the callback of a CURRENT subscription at delivery time
+	want := map[string]bool{}
+	switch k.change {
+	case "none", "resubscribe-B-refused":
+		want["A"] = true
+	case "unsubscribe":
+	case "resubscribe-B":
+		want["B"] = true
+	case "subscribe-other-matching":
+		want["A"], want["other"] = true, true
+	}
+	witness := map[string]interface{}{"case": k.String(), "callbacks": ran, "trace": world.Strings(evs, 60)}
+	sig := fmt.Sprintf("|%s|qos=%d", k.change, k.qos)
+	switch {
+	case len(want) == 0 && len(ran) > 0:
+		c.Violation("callback-after-unsubscribe"+sig, fmt.Sprintf("%s: callback %q ran although the filter had been unsubscribed before the message was delivered", k, ran), witness)
+	case len(want) > 0 && len(ran) == 0:
+		c.Violation("no-callback-for-current-subscription"+sig, fmt.Sprintf("%s: no callback ran", k), witness)
+	case len(ran) > 1:
+		c.Violation("several-callbacks"+sig, fmt.Sprintf("%s: callbacks %q ran", k, ran), witness)
+	case len(ran) == 1 && !want[ran[0]]:
+		c.Violation("callback-of-a-subscription-that-is-not-current"+sig, fmt.Sprintf("%s: callback %q ran, the current subscription's is %v", k, ran[0], keysB(want)), witness)
+	}
+	c.Evals(1)
+	r.Count("deliveries_checked", 1)
+	r.Observe("delivery around a subscription change", fmt.Sprintf("%s qos=%d -> %v", k.change, k.qos, ran))
+	c.Key("change|%s", k)
+}
+
+func keysB(m map[string]bool) []string {
+	var out []string
+	for k := range m {
+		out = append(out, k)
+	}
+	sort.Strings(out)
+	return out
 }
